@@ -55,6 +55,25 @@ class PointsTo:
             out |= s
         return out
 
+    def field_init_targets(self, objs, fname):
+        """addresses stored in member `fname` of the (struct) objects; falls
+        back to every address in the initialiser when the shape is unknown"""
+        out = set()
+        for o in objs:
+            g = self.p.globals.get(o)
+            if g is None or 'init' not in g:
+                continue
+            found = False
+            for it in _structs(g['init']):
+                if fname in it:
+                    found = True
+                    for a in _flat(it[fname]):
+                        if isinstance(a, dict) and 'addr' in a and not a.get('isfunc'):
+                            out.add(a['addr'])
+            if not found:
+                out |= self.init_targets([o])
+        return out
+
     def init_closure(self, objs):
         """everything reachable through initialiser addresses (contents, collapsed)"""
         out = set()
@@ -119,7 +138,7 @@ class PointsTo:
             x = self.pts(f, e[1]) if e[4] else self.objs(f, e[1])
             if t in ('r', 'a'):
                 return set(x)                         # in-place: same objects as the base
-            s = self.init_targets(x) | self.t.get(('F', e[2], e[3]), set())
+            s = self.field_init_targets(x, e[3]) | self.t.get(('F', e[2], e[3]), set())
             if (e[2], e[3]) in self.track_fields:
                 s.add('F:%s.%s' % (e[2], e[3]))
             return s
@@ -445,3 +464,14 @@ def _flat(x):
             yield from _flat(y)
     else:
         yield x
+
+
+def _structs(x):
+    """every struct-valued (dict) node of an initialiser"""
+    if isinstance(x, list):
+        for y in x:
+            yield from _structs(y)
+    elif isinstance(x, dict) and 'addr' not in x and 'str' not in x and 'complit' not in x and 'lvalue' not in x:
+        yield x
+        for y in x.values():
+            yield from _structs(y)
